@@ -75,8 +75,19 @@ def gen_ops(rng, n, kind):
             ops.append(['new', rng.randrange(1 << 30)])
         elif r < 0.70:
             ops.append(['del', rng.randrange(1 << 30)])
-        elif r < 0.88 and kind == 'file':
+        elif r < 0.84 and kind == 'file':
             ops.append(['undo', rng.choice([0, 0, 1, 2])])
+        elif r < 0.88 and kind == 'file':
+            # a live commit whose vote is watched by a historical connection (read during the vote /
+            # after it), which then finishes or aborts; values keep one pickle layout
+            mode = rng.choice(['during-commit', 'during-commit', 'during-abort', 'after-abort', 'after-abort',
+                               'after-commit'])
+            if mode.startswith('during'):
+                # make the newest revision of an object an undo record (data behind a back pointer)
+                ops += [['set', 1, rng.randrange(1 << 30)], ['undo', 0]]
+            ops.append(['vw', mode, rng.randrange(1 << 20, 1 << 30)])
+        elif r < 0.905 and kind == 'file':
+            ops.append(['delobj', rng.randrange(1 << 30)])      # storage-level deleteObject
         elif r < 0.93:
             ops.append(['newset', rng.randrange(1 << 30)])
         else:
@@ -130,6 +141,62 @@ def gen_multi_ops(rng, n):
         else:
             ops.append(['del2', v])
     return ops
+
+
+class _TfileProxy:
+    """stands in for FileStorage._tfile (instance attribute, harness process only): the first read()
+    after arming — tpc_vote's cp() after the transaction header went into the write buffer, before
+    the records — runs a hook (a historical read) at a point inside the vote"""
+
+    def __init__(self, f):
+        self.__dict__['_f'] = f
+        self.__dict__['_hook'] = None
+
+    def read(self, *a):
+        h = self.__dict__['_hook']
+        if h is not None:
+            self.__dict__['_hook'] = None
+            h()
+        return self.__dict__['_f'].read(*a)
+
+    def __getattr__(self, n):
+        return getattr(self.__dict__['_f'], n)
+
+
+class VoteAbort(Exception):
+    pass
+
+
+class VoteWindow:
+    """resource manager voting AFTER the storage: lets a hook look at the database between the
+    storage's vote and its finish / abort, and optionally makes the transaction fail"""
+
+    def __init__(self, tm, hook, fail):
+        self.transaction_manager, self.hook, self.fail = tm, hook, fail
+
+    def sortKey(self):
+        return '~~~vote-window'
+
+    def abort(self, t):
+        pass
+
+    def tpc_begin(self, t):
+        pass
+
+    def commit(self, t):
+        pass
+
+    def tpc_vote(self, t):
+        if self.hook:
+            self.hook()
+        if self.fail:
+            raise VoteAbort()
+
+    def tpc_finish(self, t):
+        pass
+
+    def tpc_abort(self, t):
+        pass
 
 
 # ---------------------------------------------------------------- the harness's own record
@@ -198,6 +265,8 @@ def real_reads(conn, oids, minimize=False):
                 out.append('name %s oid=%d serial=%d val=%s' % (name, u64(o._p_oid), u64(o._p_serial), v))
             except POSKeyError:
                 out.append('name %s KeyError' % name)
+            except Exception as e:      # noqa: BLE001  (damaged storage)
+                out.append('name %s ERROR %s' % (name, type(e).__name__))
     except POSKeyError:
         out.append('root KeyError')
     for oid in oids:
@@ -209,6 +278,8 @@ def real_reads(conn, oids, minimize=False):
             out.append('oid %d serial=%d val=%s' % (oid, u64(o._p_serial), v))
         except POSKeyError:
             out.append('oid %d KeyError' % oid)
+        except Exception as e:          # noqa: BLE001
+            out.append('oid %d ERROR %s' % (oid, type(e).__name__))
     return out
 
 
@@ -260,8 +331,10 @@ class World:
         self.dir = d
         if case['kind'] == 'file':
             self.st = FileStorage(os.path.join(d, 'Data.fs'), pack_gc=False)
+            self.st._tfile = _TfileProxy(self.st._tfile)
         else:
             self.st = MappingStorage()
+        self.no_undo = set()     # indices in rec.txns that are never undone (deleteObject and its `del`)
         self.rec = Record()
         self.last_touch = {}     # oid -> index in rec.txns of the last txn that wrote it
         self.packed_upto = 0     # bounds must be > this tid
@@ -338,7 +411,8 @@ class World:
                     tm.abort()
                     return False
                 tid, w = self.rec.txns[idx]
-                if tid <= self.packed_upto or any(self.last_touch[oid] != idx for oid in w):
+                if tid <= self.packed_upto or idx in self.no_undo or \
+                        any(self.last_touch[oid] != idx for oid in w):
                     tm.abort()
                     self.obs.count('undo-skipped')
                     return False
@@ -352,10 +426,102 @@ class World:
                 tm.commit()
                 pre = self.rec.state_at(tid)
                 self.note_commit({oid: (pre[oid][1] if oid in pre else None) for oid in w})
+            elif kind == 'delobj':
+                names = sorted(mapping)
+                if not names or self.case['kind'] != 'file':
+                    tm.abort()
+                    return False
+                name = names[op[1] % len(names)]
+                oid = mapping[name]
+                del root[name]
+                del mapping[name]
+                tm.commit()
+                self.note_commit({0: mapping})
+                self.no_undo.add(len(self.rec.txns) - 1)
+                # the object is unreachable now: delete it at the storage level (what an external
+                # garbage collector does): IExternalGC.deleteObject in its own transaction
+                from ZODB.Connection import TransactionMetaData
+                t = TransactionMetaData()
+                serial = self.rec.current()[oid][0]
+                self.st.tpc_begin(t)
+                try:
+                    self.st.deleteObject(p64(oid), p64(serial), t)
+                    self.st.tpc_vote(t)
+                    self.st.tpc_finish(t)
+                except Exception:
+                    self.st.tpc_abort(t)
+                    raise
+                self.note_commit({oid: None})
+                self.no_undo.add(len(self.rec.txns) - 1)
+            elif kind == 'vw':
+                return self.vote_window(op, tm, c, root, mapping)
             return True
         except Exception:
             tm.abort()
             raise
+
+    def vote_window(self, op, tm, c, root, mapping):
+        """a live commit watched by a historical connection at the current state: it reads everything
+        from the storage DURING the vote (between the vote's writes) or AFTER it; the commit then
+        finishes or aborts (followed by a commit of the same layout); the historical view must never
+        change and later commits must be intact"""
+        import transaction
+        obs, rec = self.obs, self.rec
+        names = sorted(mapping)
+        if not names or self.case['kind'] != 'file':
+            tm.abort()
+            return False
+        mode, v = op[1], op[2]
+        pick = sorted(set(names[(v + j * 5) % len(names)] for j in range(2)))
+        ltid = rec.ltid()
+        htm = transaction.TransactionManager()
+        h = self.db.open(htm, at=p64(ltid))
+        oids = sorted(rec.all_oids)
+        exp = expected_reads(rec, ltid + 1, oids)
+        ctx = 'at=%d (vote window, %s)' % (ltid, mode)
+
+        def look(where):
+            obs.nprobe += 1
+            obs.count('vote-window-read:' + where)
+            check_reads(obs, 'historical read ' + where, 'C15:read-differs',
+                        real_reads(h, oids, minimize=True), exp, ctx)
+
+        def write(delta):
+            w = {}
+            for j, name in enumerate(pick):
+                root[name].value = (v ^ delta) + j
+                w[mapping[name]] = (v ^ delta) + j
+            return w
+
+        writes = write(0)
+        if mode.startswith('during'):
+            self.st._tfile.__dict__['_hook'] = lambda: look('during a live vote')
+        tm.get().join(VoteWindow(tm, (lambda: look('between a live vote and its outcome'))
+                                 if mode.startswith('after') else None, mode.endswith('abort')))
+        try:
+            tm.commit()
+            committed = True
+        except VoteAbort:
+            tm.abort()
+            committed = False
+        finally:
+            self.st._tfile.__dict__['_hook'] = None
+        if committed:
+            self.note_commit(writes)
+        else:
+            tm.begin()
+            writes = write(1)                   # same objects, same pickle layout, other values
+            tm.commit()
+            self.note_commit(writes)
+        look('after the outcome')
+        h2 = self.db.open(transaction.TransactionManager(), at=p64(rec.ltid()))
+        check_reads(obs, 'historical read of the commit that followed a watched vote', 'C15:read-differs',
+                    real_reads(h2, oids, minimize=True), expected_reads(rec, rec.ltid() + 1, oids),
+                    'at=%d' % rec.ltid())
+        h2.close()
+        htm.abort()
+        h.close()
+        return True
 
     @staticmethod
     def _id_tid(b):
